@@ -220,4 +220,5 @@ Definition run_C10 (suite : str) (args : list str) : option str :=
   else if streqb suite (bs "sts.policy") then Some (run_scenario args)
   else if streqb suite (bs "sts.expiry") then
     Some (match args with _ :: _ :: _ :: _ => run_expiry args | _ => bs "?short-case" end)
+  else if streqb suite (bs "sts.closeatack") then Some (bs "probe")   (* race probe: constant observation *)
   else None.
